@@ -152,3 +152,57 @@ Qed.
 Lemma short_timeout_crashes :
   cs_crashed (run cc_auto [ILock la 5 1; IAdvance (10 * second)]) = Some (CrRenewFailed 0).
 Proof. vm_compute. reflexivity. Qed.
+
+(** * The refutations in the form Properties/C19.v states them *)
+
+(** C19_stop as the property text has it — "for every timing of Unlock against the renew loop" — fails: *)
+Lemma stop_refuted :
+  ∃ cc sched j h,
+    cc_noauto cc = false ∧ wf_sched cc sched = true ∧ excluded_renewmap cc sched = false ∧ timely cc j sched = true ∧
+    cs_holds (run cc sched) !! j = Some h ∧ h_locked h = true ∧ client_MinRenewSeconds < h_T h ∧ h_unl h = true ∧
+    p_stop j (cs_trace (run cc sched)) = false ∧ no_crash (cs_trace (run cc sched)) = false.
+Proof.
+  exists cc_auto, stopdrop_witness, 0%nat. vm_compute. eexists. repeat split; reflexivity.
+Qed.
+
+(** C19_multi as the property text has it — "including several of the same counting lock" — fails twice over:
+    two auto-renewed holds of one name panic; with one of them without a timeout, unlocking it makes the OTHER
+    hold expire although the client is alive, has not unlocked it, and every Renew was answered at once. *)
+Lemma multi_refuted_panic :
+  ∃ cc sched,
+    cc_noauto cc = false ∧ wf_sched cc sched = true ∧ excluded_stopdrop cc sched = false ∧
+    timely cc 0 sched = true ∧ timely cc 1 sched = true ∧
+    cs_crashed (run cc sched) = Some (CrOutOfSync 1).
+Proof. exists cc_auto, renewmap_witness. vm_compute. repeat split; reflexivity. Qed.
+
+Lemma multi_refuted_quiet :
+  ∃ cc sched j h,
+    cc_noauto cc = false ∧ wf_sched cc sched = true ∧ excluded_stopdrop cc sched = false ∧ timely cc j sched = true ∧
+    cs_holds (run cc sched) !! j = Some h ∧ h_locked h = true ∧ client_MinRenewSeconds < h_T h ∧ h_unl h = false ∧
+    cs_closed (run cc sched) = false ∧ cs_crashed (run cc sched) = None ∧
+    lease_ok (run cc sched) j = false ∧ held (run cc sched) j = false.
+Proof.
+  exists cc_auto, renewmap_witness_quiet, 0%nat. vm_compute. eexists. repeat split; reflexivity.
+Qed.
+
+(** non-vacuity of the positive statements: three holds around the thresholds, a Renew kept in flight on both sides of
+    the server within the slack, idle for many lease lengths, one hold unlocked while its renewer sleeps *)
+Definition lb : str := [x62].
+Definition lc : str := [x63].
+Definition good_witness : list item :=
+  [ILock la 11 1; ITryLock lb 90 1; ILock lc 31 1;
+   IHold 0 StBoth; IAdvance (10 * second + 300000000); IStep 0; IAdvance 200000000; IStep 0;
+   IAdvance (400 * second); IProbe; ICompete la 1;
+   IUnlock 1; IAdvance (200 * second); IProbe].
+
+Lemma good_witness_facts :
+  wf_sched cc_auto good_witness = true ∧
+  excluded_stopdrop cc_auto good_witness = false ∧ excluded_renewmap cc_auto good_witness = false ∧
+  timely cc_auto 0 good_witness = true ∧ timely cc_auto 1 good_witness = true ∧ timely cc_auto 2 good_witness = true ∧
+  cs_crashed (run cc_auto good_witness) = None ∧ cs_closed (run cc_auto good_witness) = false ∧
+  lease_ok (run cc_auto good_witness) 0 = true ∧ held (run cc_auto good_witness) 0 = true ∧
+  lease_ok (run cc_auto good_witness) 2 = true ∧ held (run cc_auto good_witness) 2 = true ∧
+  lease_ok (run cc_auto good_witness) 1 = false ∧ held (run cc_auto good_witness) 1 = false ∧
+  p_stop 1 (cs_trace (run cc_auto good_witness)) = true ∧
+  (20 < length (cs_trace (run cc_auto good_witness)))%nat.
+Proof. vm_compute. repeat split; try reflexivity; lia. Qed.
